@@ -113,6 +113,8 @@ structure Event where
   calli : Nat
   pos : Pos
   text : List Nat
+  /-- the parser's own position when the block was called -/
+  pt : Pos
   args : List Val
   state : Store
   global : Store
@@ -289,7 +291,7 @@ def callBlock (E : Env) (blk : Nat) (s : PState) : BlockResult × PState :=
   let ctx : Ctx := { pos := s.curPos, text := s.curText, args := args, state := st,
                      global := s.global, calli := s.nCalls }
   let r := E.code.run blk ctx
-  let ev : Event := { blk := blk, calli := s.nCalls, pos := s.curPos, text := s.curText,
+  let ev : Event := { blk := blk, calli := s.nCalls, pos := s.curPos, text := s.curText, pt := s.pt.pos,
                       args := args, state := st, global := s.global,
                       sout := r.state, gout := r.global }
   (r, { s with nCalls := s.nCalls + 1, trace := ev :: s.trace,
